@@ -12,9 +12,14 @@ def connPrims : List String := ["connwrite", "flush", "wswrite"]
 /-- primitives that may appear inside the critical section -/
 def bodyPrims : List String := ["connwrite", "flush", "wswrite", "bufreset", "bufwrite", "buflen"]
 
+/-- an early return inside the section that releases the lock (the unlock is deferred), with at
+    most the closing of the session on the way out -/
+def unlockingReturn (o : String) : Bool :=
+  o == "return-unlocks" || o == "  in-return:closeSession"
+
 /-- The program takes `lockW` exactly once, every connection primitive lies between that
-    `lock` and its `unlock`, nothing but writes happens in between (no early return, no
-    second lock), and there is at least one connection primitive. -/
+    `lock` and its `unlock`, nothing but writes happens in between (no early return that keeps
+    the lock, no second lock), and there is at least one connection primitive. -/
 def wellLocked (p : List String) : Bool :=
   let before := p.takeWhile (· != "lock:lockW")
   let fromLock := p.dropWhile (· != "lock:lockW")
@@ -22,7 +27,7 @@ def wellLocked (p : List String) : Bool :=
   let fromUnlock := (fromLock.drop 1).dropWhile (· != "unlock:lockW")
   let after := fromUnlock.drop 1
   !fromLock.isEmpty && !fromUnlock.isEmpty &&
-  body.all (bodyPrims.contains ·) && body.any (connPrims.contains ·) &&
+  body.all (fun o => bodyPrims.contains o || unlockingReturn o) && body.any (connPrims.contains ·) &&
   (before ++ after).all (fun o => !connPrims.contains o && o != "lock:lockW" && o != "unlock:lockW")
 
 /-- the critical section of a well-locked program, as LTS operations: `connwrite` is expanded
